@@ -66,12 +66,14 @@ def cell_note(cell, beat, col, player=0):
 
 
 def stream_of(rows, beats, player=0):
+    """A cell kind written 'a+b' holds two notes in one cell (ill-formed but still position-sorted)."""
     out = []
     for r, row in enumerate(rows):
         for c, cell in enumerate(row):
-            n = cell_note(cell, beats[r], c, player)
-            if n is not None:
-                out.append(n)
+            for part in cell.split("+"):
+                n = cell_note(part, beats[r], c, player)
+                if n is not None:
+                    out.append(n)
     return out
 
 
